@@ -282,7 +282,7 @@ def ob_scalars(w):
 def tasks(tier):
     out = [task(MOD, 'ob_frame', ('C13', 'C18'), label='global/frame')]
     for w in ((2,) if tier == 'quick' else (2, 3, 4, 8)):
-        out.append(task(MOD, 'ob_data', ('C13',), label=f'global/data/w{w}', w=w, cost=6))
+        out.append(task(MOD, 'ob_data', ('C13', 'C10'), label=f'global/data/w{w}', w=w, cost=6))
         out.append(task(MOD, 'ob_pairs', ('C13',), label=f'global/pairs/w{w}', w=w, cost=4))
         out.append(task(MOD, 'ob_scalars', ('C13', 'C01'), label=f'global/scalars/w{w}', w=w, cost=2))
         out.append(task(MOD, 'ob_strings', ('C13',), label=f'global/strings/w{w}', w=w, cost=2))
